@@ -107,7 +107,7 @@ theorem interpS_returnsEarly (v : String → Bool) (flag : String) (w : SSt) (hw
           simp only [neutralOther, Bool.and_eq_true, Bool.not_eq_true', decide_eq_true_eq] at hn
           obtain ⟨⟨⟨⟨⟨⟨h0, h1⟩, h2⟩, h3⟩, h4⟩, h5⟩, h6⟩ := hn
           rw [interpS]
-          simp only [h0, Bool.false_and, Bool.false_eq_true, if_false, h1, h2, h3, h4, h5, h6]
+          simp only [h0, Bool.false_and, Bool.false_eq_true, if_false, h1, h2, h3, h4, h5, h6, ite_self]
           exact ih n hrest hlen'
       | call g f =>
         simp only [returnsEarly, Bool.and_eq_true, decide_eq_true_eq, Option.isNone_iff_eq_none] at h
